@@ -11,6 +11,7 @@ def run(rep, prog, tier):
     rep.rule("C07-R2", "fieldnorm::code::FIELD_NORMS_TABLE has 256 entries, starts at 0 and is strictly increasing (precondition of the binary search in fieldnorm_to_id, and of id_to_fieldnorm being its inverse)")
     rep.not_decided += ["everything about posting-list content, positions, term dictionaries (values)"]
     r3(rep, prog)
+    r4(rep, prog)
     tc = get_body(rep, prog, "C07-R1", T + "::to_code")
     fc = get_body(rep, prog, "C07-R1", T + "::from_code")
     variants = ct.enum_variants(prog, T)
@@ -117,3 +118,45 @@ def r3(rep, prog):
                   "index_document re-creates the IndexingPosition of a text field inside the loop over the field's values: positions of the values overlap and the field norm counts the last value only",
                   site=site(b, inside[0]) if inside else site(b, bi))
     rep.floor(R, "text-field index_text sites whose position feeds the field norm", n, 1)
+
+
+def r4(rep, prog):
+    """a token is counted iff it is indexed"""
+    R = "C07-R4"
+    rep.rule(R, "counted iff indexed: in the token callback of PostingsWriter::index_text the per-value token counter (a captured counter incremented by the constant 1; it becomes the field norm and must agree with the number of postings written, i.e. with total_num_tokens) is incremented on exactly the paths that hand the token to PostingsWriter::subscribe — a token skipped by the length filter is neither indexed nor counted")
+    fid = "tantivy::postings::postings_writer::PostingsWriter::index_text::{closure#0}"
+    b = get_body(rep, prog, R, fid)
+    if b is None:
+        return
+    subs = [bi for bi, t in b.calls() if (t.get("f") or "").endswith("PostingsWriter::subscribe")]
+    incs = []
+    for bi in b.normal_blocks():
+        for st in b.stmts(bi):
+            if st.get("r") == "bin" and st.get("op") in ("AddWithOverflow", "Add") and len(st.get("o", [])) == 2:
+                o0, o1 = st["o"]
+                p0 = op_place(o0)
+                if p0 is not None and not is_bare(p0) and "*" in p0["p"] and op_place(o1) is None and str(o1.get("v")) == "1":
+                    # the dereferenced pointer comes from the closure environment
+                    tr = trace_back(b, place_local(p0))
+                    if tr and tr[-1] == ("param", 1):
+                        incs.append(bi)
+    if not rep.check(len(subs) == 1 and len(incs) == 1, R, "index_text callback: anchors", "one subscribe call, one captured counter incremented by 1",
+                     "cannot establish: expected one subscribe call and one `captured += 1` in the token callback of index_text, found %d / %d" % (len(subs), len(incs)), site=b.span):
+        return
+    S, N = subs[0], incs[0]
+    rets = b.return_blocks()
+    # counted but not indexed: entry -> N avoiding S, and N -> exit avoiding S
+    pre = b.reachable((0,), blocked=frozenset({S}))
+    post = b.reachable(tuple(b.succ(N)), blocked=frozenset({S})) if N in pre else set()
+    counted_not_indexed = N in pre and any(r in post or r == N for r in rets)
+    indexed_not_counted = any(r in b.reachable(tuple(b.succ(S)), blocked=frozenset({N})) for r in rets) and N not in b.reachable((0,), blocked=frozenset({S}))
+    rep.check(not counted_not_indexed, R, "a token that is not handed to subscribe is not counted", "the counter increment is only reachable after subscribe",
+              "the token callback of index_text counts a token (num_tokens += 1) on a path that never hands it to subscribe: tokens dropped by the length filter inflate the field norm, "
+              "which no longer equals the number of postings of the document", site=site(b, N))
+    rep.check(not indexed_not_counted, R, "a token handed to subscribe is counted", "every path from subscribe to the exit increments the counter",
+              "the token callback of index_text indexes a token without counting it", site=site(b, S))
+
+
+def _dominates(b, a, x):
+    """every path from entry to block x passes block a"""
+    return x not in b.reachable((0,), blocked=frozenset({a})) or a == x
